@@ -31,9 +31,10 @@
    to merge the contents of two econf_files.  */
 
 
-/* Insert the content of "etc_file.file_entry" into "fe" if there is no
-   group specified.  */
-size_t insert_nogroup(econf_file *dest_kf, struct file_entry **fe, econf_file *ef);
+/* Insert the group-less entries of "etc_file.file_entry" into "fe" if
+   usr_file has no group-less entries.  */
+size_t insert_nogroup(econf_file *dest_kf, struct file_entry **fe,
+		      econf_file *uf, econf_file *ef);
 
 /* Merge contents from existing usr_file groups */
 size_t merge_existing_groups(econf_file *dest_kf, struct file_entry **fe, econf_file *uf, econf_file *ef,
